@@ -19,7 +19,28 @@ def _args(atom: str) -> tuple[str, list[clingo.Symbol]]:
     return sym.name, list(sym.arguments)
 
 
-def check(models: list, voc: set) -> Optional[str]:
+def emitted_domains(result_text: str) -> set:
+    """(name, arity) of every domain predicate that has a rule in the result program"""
+    from clingo.ast import ASTType  # pylint: disable=import-outside-toplevel
+
+    from vt.common import parse  # pylint: disable=import-outside-toplevel
+
+    out = set()
+    for line in result_text.split("\n"):
+        if not line.startswith("__dom_"):
+            continue
+        try:
+            for stm in parse(line):
+                if stm.ast_type == ASTType.Rule and stm.head.ast_type == ASTType.Literal:
+                    sym = stm.head.atom.symbol
+                    if sym.ast_type == ASTType.Function:
+                        out.add((sym.name, len(sym.arguments)))
+        except RuntimeError:
+            continue
+    return out
+
+
+def check(models: list, voc: set, domheads: Optional[set] = None) -> Optional[str]:
     """models: list of (atoms frozenset of (name, arity, text), shown, cost) of ONE instance of the result program.
     returns a description of the first broken invariant or None"""
     if not models:
@@ -32,6 +53,8 @@ def check(models: list, voc: set) -> Optional[str]:
                 by_pred[(name, arity)].append(text)
         # (a) p(t) true => __dom_p(t) true, for every domain predicate of a source predicate of the same arity
         doms = {k: v for k, v in by_pred.items() if k[0].startswith("__dom_")}
+        for k in domheads or ():  # also the (possibly empty) domain predicates that have rules in the result
+            doms.setdefault(k, [])
         dom_names = {n for n, _ in by_pred if n.startswith("__dom_")}
         for (dname, darity), dtexts in list(doms.items()):
             pname = dname[len("__dom_"):]
